@@ -124,8 +124,12 @@ def grammar(tier):
 def render_batch(patterns, idx):
     """One API with one resource message per pattern (half of them declared as file-level
     resource_definition); returns the emitted client sources."""
-    fb = gen.FileBuilder(f"google/example/res{idx}/v1/res.proto", f"google.example.res{idx}.v1")
-    fields = []
+    # a file-level resource definition in a DEPENDENCY file of another package, referenced from a request field
+    dep = gen.FileBuilder(f"google/example/shared{idx}/resources.proto", f"google.example.shared{idx}")
+    dep.file_resource(f"res.googleapis.com/Dep{idx}", ["deps/{dep}"])
+    dep.message("Unused", [("x", "string")])
+    fb = gen.FileBuilder(f"google/example/res{idx}/v1/res.proto", f"google.example.res{idx}.v1", deps=[dep.f.name])
+    fields = [("rdep", "string", {"ref": f"res.googleapis.com/Dep{idx}"})]
     for i, p in enumerate(patterns):
         rtype = f"res.googleapis.com/Kind{idx}x{i}"
         if i % 3 == 2:
@@ -141,7 +145,7 @@ def render_batch(patterns, idx):
     svc = fb.service("ResSvc")
     fb.method(svc, "Get", "GetRequest", "Reply")
     fb.method(svc, "Run", "Reply", "google.longrunning.Operation", lro=("LroOnly", "LroMeta"))
-    g = gen.generate([fb], parameter="transport=grpc")
+    g = gen.generate([dep, fb], parameter="transport=grpc", to_generate=[fb.f.name])
     return g.text("services/res_svc/client.py"), g.text("services/res_svc/async_client.py")
 
 
@@ -481,7 +485,7 @@ def replay(chk, data):
         return None if data["cex"]["helper"] in hs else data["text"]
     client, _ = render_batch([data["pattern"]], 0)
     hs = extract_helpers(client)
-    h = [v for k, v in hs.items() if not k.startswith("common_") and not k.startswith("lro")][0]
+    h = [v for k, v in hs.items() if not k.startswith("common_") and not k.startswith("lro") and not k.startswith("dep")][0]
     return concrete_violation(h, data["pattern"], data["cex"])
 
 
@@ -560,6 +564,15 @@ def body(chk: core.Check):
             chk.violation("helper-missing:lro-response-resource",
                           f"batch {bi}: no {lro_name} / parse_{lro_name} although the resource is the response type of an LRO method",
                           {"pattern": "lros/{lro}", "cex": {"kind": "missing", "helper": lro_name, "batch": list(b), "idx": bi}})
+        dep_name = f"dep{bi}_path"
+        if dep_name in own:
+            chk.ok("helpers-offered", f"batch{bi}:file-level resource of a dependency package")
+            del own[dep_name]
+        else:
+            chk.violation("helper-missing:dependency-file-resource",
+                          f"batch {bi}: no {dep_name} / parse_{dep_name} although a request field references the resource "
+                          "defined in an imported file of another package",
+                          {"pattern": "deps/{dep}", "cex": {"kind": "missing", "helper": dep_name, "batch": list(b), "idx": bi}})
         for i, p in enumerate(b):
             name = f"kind{bi}x{i}_path"
             if name not in own:
